@@ -136,6 +136,12 @@ class ExpandedTraceback:
         self.show_filenames = show_filenames
         innermost_frame = traceback.extract_tb(exc_info[2])[-1]
         self.line_number = innermost_frame[1] + line_offsets.get(innermost_frame[0], 0)
+        # Code that does not compile fails inside the compile() call, not on
+        # any line of its own: the line is the one the parser complains about
+        if (issubclass(type(exception), SyntaxError) and innermost_frame[0] not in student_files
+                and getattr(exception, 'filename', None) in student_files
+                and isinstance(getattr(exception, 'lineno', None), int)):
+            self.line_number = exception.lineno + line_offsets.get(exception.filename, 0)
         self.original_code_lines = original_code_lines
         self.student_files = student_files
 
